@@ -1,10 +1,17 @@
 """C01 — Formula strings denote exactly the documented Wilkinson term algebra.
 
-Correspondence stream `c01` (op `both`): real `DefaultFormulaParser(...).get_terms(s)` and
-`Formula(s)` against `Model.parseTerms` / `Model.formulaOfString` (tokenizer, token rewriting,
-generated operator table, index-based shunting-yard, term algebra, `_simplify`, degree order).
-Oracle (impl only): an independent evaluator of the documented semantics on the generator's AST,
-documented identities, and equivalence of the specification forms.
+Correspondence stream `c01`, four kinds of requests to the Lean engine:
+* op `all` (kinds grammar / mutated / edge): EVERY stage of the real parser — `get_tokens`, `get_ast`, `get_terms`
+  (through `FormulaParser.parse(target=enum|name|int)` or the shortcuts) and `Formula(<str>)` — against the model
+  (`Model.getTokens`, `tokensToAst`, `parseTerms`, `formulaOfString`): token list, tree, terms, ordered formula.
+* op `spec`: every SPECIFICATION FORM — `Formula.from_spec`, `Formula(root, **kw)`, `StructuredFormula(...)`,
+  `SimpleFormula(...)` on strings, lists / sets / OrderedSets of strings and Terms, dicts, tuples, plain `Structured`s,
+  existing Formulas, invalid objects; orderings none / degree / sort / invalid; parsers given or not; result optionally
+  pickled / deep-copied — against `Model/FromSpec.lean`.
+* op `base`: the base class `FormulaParser` with a `DefaultOperatorResolver` (lazy token pipeline) — `Model/BaseParser.lean`.
+* op `both` (kinds identity / forms): terms and formula of the operands of the documented identities.
+Oracle (impl only): an independent evaluator of the documented semantics on the generator's AST, documented identities,
+equivalence of the specification forms, the ordering methods, rejection of strings outside the grammar.
 """
 from __future__ import annotations
 
@@ -17,17 +24,36 @@ REQUIRED_THEOREMS = ['table_is_documented', 'shunt_complete', 'grammar_parses', 
                      'intercept_every_part', 'intercept_every_rhs_part', 'no_intercept_on_lhs', 'intercept_onesided_general',
                      'intercept_twosided_general', 'no_intercept_configured', 'zero_rewrites',
                      'toplevel_parses', 'twosided_parses', 'multipart_parses', 'onesided_tilde_parses', 'toplevel_rejects',
-                     'eval_toplevel', 'eval_onesided', 'eval_toplevel_total']
+                     'eval_toplevel', 'eval_onesided', 'eval_toplevel_total',
+                     # evaluation = denotation, parse = denotation (Spec/WilkinsonDenote.lean)
+                     'eval_eq_denote', 'parse_eq_denote_partial', 'parse_eq_denote_tokens_partial', 'formula_eq_denote_partial',
+                     'intercept_is_fold', 'spans_irrelevant',
+                     # from the string: the tokenizer on a formula written with single spaces
+                     'tokenize_rendered', 'parse_eq_denote_rendered_partial', 'parse_eq_denote_rendered_sum_partial',
+                     # term algebra
+                     'union_idempotent', 'union_associative', 'diff_is_set_difference', 'interaction_distributes',
+                     'power_is_iterated_interaction', 'product_respects_identity',
+                     # specification forms (Model/FromSpec.lean)
+                     'forms_onesided', 'forms_twosided', 'forms_multipart_two', 'fromSpec_fuel_sufficient', 'string_eq_keywords_partial', 'ordering_methods']
 TRUSTED = [
     "modelled, not verified: CPython's ast.parse/ast.unparse normal form of Python fragments and Python's re classes \\w, \\s (both enter the model as per-case data computed with the live regexes / sanitize_python_code)",
-    "the operator table is regenerated from the live DefaultOperatorResolver on every run (Gen/OperatorTable.lean)",
+    "the operator table is regenerated from the live DefaultOperatorResolver on every run (Gen/OperatorTable.lean); the configuration of DEFAULT_PARSER / DEFAULT_NESTED_PARSER, the OrderingMethod members, the default orderings of the four entry points and the FormulaParser.Target members are regenerated from the live modules (Gen/FormulaDefaults.lean)",
+    "CPython's iteration order of a `set` specification (hash order) enters the model as data: the harness sends the elements of every set / OrderedSet in the order the real object yields them",
+    "pickle / copy.deepcopy of a formula are exercised on the implementation only (oracle: the formula is unchanged); the model has no notion of them",
 ]
-ASSUMPTIONS = ["multistage `[ ~ ]` formulas are exercised by the correspondence only (experimental feature)"]
+ASSUMPTIONS = ["multistage `[ ~ ]` formulas are exercised by the correspondence only (experimental feature)",
+               "parse = denotation is proved from the token sequence, and from the STRING for formulas written with one space after every token whose atoms are plain names / numbers (tokenize_rendered, parse_eq_denote_rendered_partial); for other spellings (other whitespace, quoted names, Python fragments) it is proved GIVEN that the string tokenises to the token sequence of the formula (checked on every generated string by the `get_tokens` correspondence); formulas in which a part after `~` or `|` starts with a sign tokenise to a merged `~-` token and are covered from the token sequence only",
+               "the `.` wildcard, the literal `0` as a summand and runs of signs are outside the grammar of the parse = denotation theorem (covered by C01.6i / C01.2 at the token level and by the correspondence + reference evaluator)"]
 RULE = (
     "grammar-directed random formulas (depth<=3; names, dotted names, backtick names with operator characters, call and brace "
     "fragments, numeric scalings, 0, 1, '.', parentheses, sign runs of length 1-5, all operators) rendered with random whitespace, "
-    "x intercept on/off x 8 feature-flag subsets x available-variable lists x parser history (one case in six: a parser built under other flags, used, then reconfigured with set_feature_flags on the parser or its resolver, or used and pickled / deep-copied); plus the same strings after 1-3 random character edits; "
-    "plus identity/specification-form cases. non-trivial = at least one binary operator; distinct by canonical JSON"
+    "x intercept on/off x 8 feature-flag subsets x available-variable lists (passed as the context key or as a LayeredMapping data layer) "
+    "x parser history (one case in six: a parser built under other flags, used, then reconfigured with set_feature_flags on the parser or its resolver, a resolver built from a set of flag names, or used and pickled / deep-copied) "
+    "x the way a stage is requested (parse(target=enum|name|int) or get_tokens/get_ast/get_terms); plus the same strings after 1-3 random character edits; "
+    "plus 30 templates for rarely reached branches (string literals, non-integer exponents, re-scaled repeats, multistage nestings, '.' with and without context); "
+    "plus the base-class FormulaParser; plus identity/specification-form cases; plus random SPECIFICATION trees (depth<=3: strings, lists/sets/OrderedSets of strings and Terms, "
+    "dicts, tuples, Structured, existing Formulas, invalid objects) through from_spec / Formula(...) / StructuredFormula(...) / SimpleFormula(...) x orderings none/degree/sort/invalid x parsers given or not x pickle/deepcopy. "
+    "non-trivial = at least one binary operator; distinct by canonical JSON"
 )
 
 ALPHABET = "ab+-*:/^()~|01 .`{}[]%'\"x,"
@@ -37,6 +63,122 @@ def rand_cfg(rng):
     if rng.random() < 0.5:
         return dict(pc.CFG_DEFAULT)
     return dict(intercept=rng.random() < 0.6, twosided=rng.random() < 0.7, multipart=rng.random() < 0.7, multistage=rng.random() < 0.3)
+
+
+# ----------------------------------------------------------------------------- rarely reached branches of the parser
+
+TARGET_FORMS = ["enum", "name", "int", "short"]
+
+# (template, what the documented grammar says: "reject" = must be a FormulaParsingError, None = correspondence only)
+EDGE_TEMPLATES = [
+    ("{a}:'s'", "reject"), ("\"s t\":{a} + {b}", "reject"), ("'s'", "reject"), ("{a} + 's'", "reject"), ("2:'s':{a}", "reject"),
+    ("{a} ** 1..2", "reject"), ("{a} ** 01", "reject"), ("{a} ^ 'x'", "reject"), ("{a}**2.0", "reject"), ("{a} ** {b}", "reject"),
+    ("{a} ** 0", "reject"), ("({a} + {b}) ** (1)", None), ("{a} ** +2", None), ("{a}**1e2", "reject"), ("{a} ** 1_0", None),
+    ("[[{a} ~ {b}] ~ {c}]", None), ("[{a} ~ {b}] + {c}", None), ("{y} ~ [{a} ~ {b} + {c}]", None), ("[{a} ~ {b}] ~ {c}", None),
+    (". + {a}", None), ("{y} ~ .", None), ("{y} ~ . - {a}", None), (".", None), ("{y} + {a} ~ . : {b}", None), (". ~ {a}", None),
+    ("{a} : 2 + {a} : 3", "reject"), ("2 : {a} + {a}", "reject"), ("{a}:{b} + {b}:{a}", None), ("0 + {a} | 0", None), ("- 1 - {a}", None),
+]
+
+
+BASE_BAD = ["a ) + {1 +}", "{1 +} + `a", "a + ) `b", "{a b} )", "a b", "a ~ b ~ c `", "( a", "a + {x y} + (", "", "2", "a + 'x'",
+            "a:2 + a:3", "a | b", "~ a", "y ~ a + {b c", "a ** b", "a ** 2 +"]
+
+
+def impl_base(c):
+    from formulaic.parser import DefaultOperatorResolver
+    from formulaic.parser.types import FormulaParser
+
+    flags = {k for k in ("twosided", "multipart", "multistage") if c["cfg"][k]}
+    out = {}
+    for name, canon in (("ast", _canon_ast), ("terms", pc.canon_val)):
+        try:
+            p = FormulaParser(operator_resolver=DefaultOperatorResolver(feature_flags=flags))
+            out[name] = canon(getattr(p, "get_" + name)(c["s"]))
+        except Exception as e:
+            out[name] = {"error": pc.exc_class(e)}
+    return out
+
+
+def gen_hist(rng):
+    h = pc.gen_hist(rng)
+    if rng.random() < 0.25:  # a resolver constructed with a SET of flag names (DefaultOperatorResolver.__post_init__)
+        h = dict(h, via="resolver_set")
+    return h
+
+
+def edge_case(rng, cfg, avail, extra):
+    tpl, expect = rng.choice(EDGE_TEMPLATES)
+    at = lambda: pc.render(pc.gen_atom(rng, 0, {}))
+    s = tpl.format(a=at(), b=at(), c=at(), y=at())
+    if "[" in tpl:
+        cfg = dict(cfg, multistage=rng.random() < 0.8)
+    if "." in tpl and avail is None and rng.random() < 0.6:
+        avail = rng.sample(pc.NAMES + pc.QUOTED, rng.randint(0, 5))
+    return dict(kind="edge", s=s, cfg=cfg, avail=avail, hist=None, expect=expect, tpl=tpl, **extra)
+
+
+def _make_parser(c):
+    h = c.get("hist")
+    if h and h["via"] == "resolver_set":
+        from formulaic.parser import DefaultFormulaParser, DefaultOperatorResolver
+
+        flags = {k for k in ("twosided", "multipart", "multistage") if c["cfg"][k]}
+        return DefaultFormulaParser(operator_resolver=DefaultOperatorResolver(feature_flags=set(flags)),
+                                    include_intercept=c["cfg"]["intercept"], feature_flags=set(flags))
+    return pc.make_parser_hist(c["cfg"], h)
+
+
+def _context(c):
+    if c.get("avail") is None:
+        return {}
+    if c.get("ctxmode") == "layer":
+        from formulaic.utils.layered_mapping import LayeredMapping
+
+        return LayeredMapping(LayeredMapping({v: 0 for v in c["avail"]}, name="data"))
+    return {"__formulaic_variables_available__": c["avail"]}
+
+
+def _canon_ast(a):
+    from formulaic.parser.types import Token
+
+    if a is None:
+        return None
+    if isinstance(a, Token):
+        return ["tok", a.token, a.kind.value if a.kind else "none"]
+    return ["op", a.operator.symbol, a.operator.arity, a.operator.fixity.value, [_canon_ast(x) for x in a.args]]
+
+
+def impl_stages(c):
+    """tokens / AST / terms through FormulaParser.parse(target=…) in the form the case asks for, and Formula(<str>)"""
+    from formulaic import Formula
+    from formulaic.parser.types import FormulaParser
+
+    T = FormulaParser.Target
+    form = c.get("tform", "short")
+    out = {}
+
+    def stage(name, target, short, canon):
+        try:
+            p = _make_parser(c)
+            ctx = _context(c)
+            if form == "short":
+                r = getattr(p, short)(c["s"], context=ctx)
+            else:
+                t = {"enum": target, "name": target.name.lower(), "int": int(target)}[form]
+                r = p.parse(c["s"], target=t, context=ctx)
+            out[name] = canon(r)
+        except Exception as e:
+            out[name] = {"error": pc.exc_class(e)}
+
+    stage("tokens", T.TOKENS, "get_tokens", lambda r: [[t.token, t.kind.value if t.kind else "none"] for t in r])
+    stage("ast", T.AST, "get_ast", _canon_ast)
+    stage("terms", T.TERMS, "get_terms", pc.canon_val)
+    try:
+        p = _make_parser(c)
+        out["formula"] = pc.canon_val(Formula(c["s"], _parser=p, _nested_parser=p, _context=_context(c)))
+    except Exception as e:
+        out["formula"] = {"error": pc.exc_class(e)}
+    return out
 
 
 import re
@@ -69,6 +211,7 @@ def _mutate(rng, s):
 
 def cases(rng, tier):
     n = {"quick": 1500, "thorough": 40000, "search": 1500}[tier]
+    yield from spec_cases(rng, {"quick": 700, "thorough": 15000, "search": 700}[tier])
     for k in range(n):
         dot = rng.random() < 0.15
         f = pc.gen_formula(rng, depth=rng.choice([1, 2, 3]), dot=dot)
@@ -87,11 +230,21 @@ def cases(rng, tier):
             pass
         r = rng.random()
         # one case in six parses with a parser that has a history (reconfigured after use, pickled, copied)
-        hist = pc.gen_hist(rng) if rng.random() < 0.17 else None
-        if r < 0.62:
-            yield dict(kind="grammar", ast=pc.to_lists(f), s=s, cfg=cfg, avail=avail, hist=hist)
+        hist = gen_hist(rng) if rng.random() < 0.17 else None
+        # how the intermediate stages are asked for (parse(target=enum|name|int) or the get_* shortcuts) and how
+        # the available variables reach the `.` operator (context key or a LayeredMapping with a `data` layer)
+        extra = dict(tform=rng.choice(TARGET_FORMS), ctxmode=rng.choice(["key", "key", "layer"]))
+        if r < 0.58:
+            yield dict(kind="grammar", ast=pc.to_lists(f), s=s, cfg=cfg, avail=avail, hist=hist, **extra)
+        elif r < 0.80:
+            yield dict(kind="mutated", s=mutate(rng, s), cfg=cfg, avail=avail, hist=hist, **extra)
+        elif r < 0.83:
+            yield edge_case(rng, cfg, avail, extra)
         elif r < 0.85:
-            yield dict(kind="mutated", s=mutate(rng, s), cfg=cfg, avail=avail, hist=hist)
+            # the base class FormulaParser with a DefaultOperatorResolver (lazy token pipeline, no intercept, no term check)
+            bs = rng.choice(BASE_BAD) if rng.random() < 0.3 else (mutate(rng, s) if rng.random() < 0.3 else s)
+            if not dot and not re.search(r"(^|[^\w.])\.($|[^\w.])", bs):
+                yield dict(kind="base", s=bs, cfg=dict(cfg, intercept=False), avail=None, **extra)
         elif r < 0.93:
             # documented identities on random operands (default parser)
             # operands: plain interaction chains of atoms (no numeric scalings: the identities are documented
@@ -105,8 +258,453 @@ def cases(rng, tier):
             lhs = [pc.render(pc.gen_inter(rng, 0, {}))]
             yield dict(kind="forms", s=" + ".join(terms), summands=terms, lhs=lhs, cfg=dict(pc.CFG_DEFAULT), avail=None)
 
+MISSING_ORD = object()
+
+# ----------------------------------------------------------------------------- specification forms (stream `spec`)
+#
+# Every way of handing a formula to the library: Formula.from_spec(spec), Formula(root, **structure),
+# StructuredFormula(root, **structure), SimpleFormula(terms) with spec a string, a list / set / OrderedSet of
+# strings and Terms, a dict, a tuple, a plain Structured, an existing Formula, or something else; orderings
+# none / degree / sort / invalid; parser and nested parser given or not. Model: Model/FromSpec.lean (op `spec`).
+
+ORDERINGS = ["none", "degree", "sort"]
+BAD_STRINGS = ["(", "a +", "a b", "y ~ x ~ z", "a:'s'", "2", "a ** b", "`a", "a | b ~ c ~ d"]
+KEYS = ["lhs", "rhs", "a", "b", "root", "x y", "deps", "Z"]
+
+
+def gen_term_json(rng):
+    k = rng.choice([1, 1, 2, 2, 3])
+    fs = []
+    for _ in range(k):
+        r = rng.random()
+        if r < 0.12:
+            fs.append([rng.choice(["1", "2", "0.5"]), "literal"])
+        elif r < 0.3:
+            fs.append([rng.choice(["f(x)", "np.log(a)", "C(b)", "a + 1"]), "python"])
+        else:
+            fs.append([rng.choice(pc.NAMES + pc.QUOTED[:4]), "lookup"])
+    return fs
+
+
+def gen_term_string(rng):
+    r = rng.random()
+    if r < 0.06:
+        return rng.choice(BAD_STRINGS + ["", " ", "a | b", "y ~ x", "0", "1", "a + b"])
+    if r < 0.2:
+        return pc.render(pc.gen_sum(rng, 1, {}), rng if rng.random() < 0.5 else None)
+    return pc.render(pc.gen_prod(rng, 1, {}), rng if rng.random() < 0.3 else None)
+
+
+def gen_formula_string(rng, safe=False):
+    if not safe and rng.random() < 0.08:
+        return rng.choice(BAD_STRINGS + ["", "  "])
+    for _ in range(20):
+        f = pc.gen_formula(rng, depth=rng.choice([1, 1, 2]), dot=False)
+        try:
+            pc.denote(pc.to_lists(f), dict(pc.CFG_DEFAULT, multistage=True), [], ordered=False)
+        except pc.TooBig:
+            continue
+        except pc.Reject:
+            if safe:
+                continue
+        except Exception:
+            if safe:
+                continue
+        s = pc.render_formula(f, None if safe or rng.random() < 0.5 else rng)
+        if not BIG_EXPONENT.search(s):
+            return s
+    return "a + b"
+
+
+def _small_sum(rng):
+    for _ in range(20):
+        sm = pc.gen_sum(rng, 1, {})
+        try:
+            pc.denote(("one", [pc.to_lists(sm)]), dict(pc.CFG_DEFAULT), [], ordered=False)
+        except pc.TooBig:
+            continue
+        except Exception:
+            pass
+        s = pc.render(sm, rng if rng.random() < 0.5 else None)
+        if not BIG_EXPONENT.search(s):
+            return s
+    return "a + b"
+
+
+def gen_items(rng, safe=False):
+    c = rng.choice(["list", "list", "list", "set", "oset"])
+    n = rng.choice([0, 1, 2, 2, 3, 4])
+    xs, seen = [], set()
+    for _ in range(n):
+        r = rng.random()
+        if r < 0.5:
+            x = {"s": "a:b" if safe else gen_term_string(rng)}
+            key = ("s", x["s"])
+        elif r < 0.95 or safe:
+            x = {"t": gen_term_json(rng)}
+            key = ("t", tuple(sorted(set(f[0] for f in x["t"]))))
+        else:
+            x = {"bad": rng.choice([3, None])}
+            key = ("bad", x["bad"])
+        if c != "list" and (key in seen or "bad" in x):  # sets: distinct hashable elements
+            continue
+        seen.add(key)
+        xs.append(x)
+    return {"k": "items", "c": c, "xs": xs}
+
+
+def gen_spec(rng, depth, safe=False):
+    r = rng.random()
+    if depth <= 0 or r < 0.38:
+        if r < 0.2 or depth <= 0 and r < 0.5:
+            return {"k": "str", "s": gen_formula_string(rng, safe)}
+        return gen_items(rng, safe)
+    if r < 0.58:
+        keys = rng.sample(KEYS, rng.randint(0, 3))
+        if not safe and rng.random() < 0.04:
+            keys.append(rng.choice(["_x", "_parser", "_ordering"]))
+        return {"k": "dict", "fs": [[k, gen_spec(rng, depth - 1, safe)] for k in keys]}
+    if r < 0.72:
+        return {"k": "tuple", "xs": [gen_spec(rng, depth - 1, safe) for _ in range(rng.randint(0, 3))]}
+    if r < 0.84:
+        keys = rng.sample([k for k in KEYS if k.isidentifier()], rng.randint(0, 3))
+        fs = [[k, gen_spec(rng, depth - 1, safe)] for k in keys]
+        rng.shuffle(fs)
+        return {"k": "structured", "fs": fs}
+    if r < 0.96:
+        return {"k": "built", "root": gen_spec(rng, depth - 1, True), "ord": rng.choice(ORDERINGS)}
+    if safe:
+        return {"k": "str", "s": "a"}
+    return {"k": "other", "v": rng.choice([3, None, 1.5])}
+
+
+def gen_ord(rng):
+    r = rng.random()
+    if r < 0.35:
+        return None
+    if r < 0.95:
+        return rng.choice(ORDERINGS)
+    return rng.choice(["foo", "DEGREE", ""])
+
+
+def spec_cases(rng, n):
+    for _ in range(n):
+        r = rng.random()
+        c = dict(kind="spec", cfg=dict(pc.CFG_DEFAULT), ord=gen_ord(rng), ord_enum=rng.random() < 0.3,
+                 parser=rand_cfg(rng) if rng.random() < 0.3 else None,
+                 nested=rand_cfg(rng) if rng.random() < 0.3 else None, avail=None, root=None, kw=[])
+        if r < 0.06:
+            # a tuple of one-part formulas: must be the multi-part formula `s1 | s2 | ...`
+            c["entry"] = rng.choice(["from_spec", "formula"])
+            c["parser"] = c["nested"] = None
+            c["root"] = {"k": "tuple", "xs": [{"k": "str", "s": _small_sum(rng)} for _ in range(rng.randint(2, 3))]}
+        elif r < 0.5:
+            c["entry"] = "from_spec"
+            c["root"] = gen_spec(rng, rng.choice([0, 1, 2, 3]))
+        elif r < 0.75:
+            c["entry"] = "formula"
+            if rng.random() < 0.8:
+                c["root"] = gen_spec(rng, rng.choice([0, 1, 2]))
+            if rng.random() < 0.6:
+                c["kw"] = [[k, gen_spec(rng, rng.choice([0, 1, 2]))] for k in rng.sample([k for k in KEYS if k != "root" and k.isidentifier()], rng.randint(1, 3))]
+        elif r < 0.9:
+            c["entry"] = "structured"
+            if rng.random() < 0.6:
+                c["root"] = gen_spec(rng, rng.choice([0, 1, 2]))
+            c["kw"] = [[k, gen_spec(rng, rng.choice([0, 1, 2]))] for k in rng.sample([k for k in KEYS if k != "root" and k.isidentifier()], rng.randint(0, 3))]
+        else:
+            c["entry"] = "simple"
+            c["sroot"] = rng.choice(["missing", "str", "notiter", "items", "items", "items", "items"])
+            c["xs"] = gen_items(rng)["xs"] if c["sroot"] == "items" else []
+            c["has_structure"] = rng.random() < 0.1
+        c["s"] = " ; ".join(_spec_strings(c))
+        # the formula may be pickled / deep-copied before it is looked at (StructuredFormula.__getstate__)
+        c["post"] = rng.choice(["none", "none", "pickle", "deepcopy"])
+        yield c
+
+
+def _walk_specs(c):
+    todo = [c.get("root")] + [v for _, v in c.get("kw", [])]
+    while todo:
+        x = todo.pop()
+        if not isinstance(x, dict):
+            continue
+        yield x
+        if x["k"] in ("dict", "structured"):
+            todo += [v for _, v in x["fs"]]
+        elif x["k"] == "tuple":
+            todo += x["xs"]
+        elif x["k"] == "built":
+            todo.append(x["root"])
+
+
+def _spec_strings(c):
+    out = []
+    for x in _walk_specs(c):
+        if x["k"] == "str":
+            out.append(x["s"])
+        elif x["k"] == "items":
+            out += [i["s"] for i in x["xs"] if "s" in i]
+    out += [i["s"] for i in c.get("xs", []) if "s" in i]
+    return sorted(set(out))
+
+
+def _py_term(fs):
+    from formulaic.parser.types import Factor, Term
+
+    return Term([Factor(e, eval_method=m) for e, m in fs])
+
+
+def _py_item(i):
+    if "s" in i:
+        return i["s"]
+    if "t" in i:
+        return _py_term(i["t"])
+    return i["bad"]
+
+
+def _py_spec(x, orders, as_terms=False):
+    """the Python object of a spec node; `orders` collects the iteration order of every set (as data for the model)"""
+    from formulaic import Formula
+    from formulaic.parser.types import OrderedSet
+    from formulaic.utils.structured import Structured
+
+    k = x["k"]
+    if k == "str":
+        return x["s"]
+    if k == "items":
+        vals = [_py_item(i) for i in x["xs"]]
+        if as_terms:  # alternative form: every string element replaced by the Terms it denotes (nested default parser)
+            from formulaic.formula import DEFAULT_NESTED_PARSER
+
+            vals = [t for v in vals for t in (list(DEFAULT_NESTED_PARSER.get_terms(v)) if isinstance(v, str) else [v])]
+        if x["c"] == "list":
+            return vals
+        st = OrderedSet(vals) if x["c"] == "oset" else set(vals)
+        # the elements that survive (a string and a Term that compare equal collapse) in iteration order
+        orders[id(x)] = [next(j for j, w in enumerate(vals) if w is v) for v in st] if not as_terms else None
+        return st
+    if k == "dict":
+        return {kk: _py_spec(v, orders, as_terms) for kk, v in x["fs"]}
+    if k == "tuple":
+        return tuple(_py_spec(v, orders, as_terms) for v in x["xs"])
+    if k == "structured":
+        return Structured(**{kk: _py_spec(v, orders, as_terms) for kk, v in x["fs"]})
+    if k == "built":
+        return Formula.from_spec(_py_spec(x["root"], orders, as_terms), ordering=x["ord"])
+    return x["v"]
+
+
+def canon_ordered(v):
+    """like pc.canon_val, but a structure is the LIST of its (key, value) pairs in `_structure` order"""
+    from formulaic.utils.structured import Structured
+
+    if isinstance(v, Structured):
+        return {"s": [[k, canon_ordered(x)] for k, x in v._structure.items()]}
+    if isinstance(v, tuple):
+        return {"t": [canon_ordered(x) for x in v]}
+    return [pc.canon_term(t) for t in v]
+
+
+def _call_spec(c, ord_override=MISSING_ORD, as_terms=False, entry=None):
+    from formulaic import Formula
+    from formulaic.formula import OrderingMethod, SimpleFormula, StructuredFormula
+
+    orders = {}
+    ctx = {"__formulaic_variables_available__": c["avail"]} if c.get("avail") is not None else None
+    o = c["ord"] if ord_override is MISSING_ORD else ord_override
+    kwo = {}
+    if o is not None:
+        kwo = dict(ordering=OrderingMethod(o) if c.get("ord_enum") and o in ORDERINGS else o)
+    parser = pc.make_parser(c["parser"]) if c.get("parser") else None
+    nested = pc.make_parser(c["nested"]) if c.get("nested") else None
+    entry = entry or c["entry"]
+    try:
+        root = _py_spec(c["root"], orders, as_terms) if c.get("root") is not None else None
+        kw = {k: _py_spec(v, orders, as_terms) for k, v in c.get("kw", [])}
+        uo = {"_" + k: v for k, v in kwo.items()}
+        if entry == "from_spec":
+            r = Formula.from_spec(root, parser=parser, nested_parser=nested, context=ctx, **kwo)
+        elif entry in ("formula", "structured"):
+            cls = Formula if entry == "formula" else StructuredFormula
+            args = [root] if c.get("root") is not None else []
+            r = cls(*args, _parser=parser, _nested_parser=nested, _context=ctx, **uo, **kw)
+        else:
+            sroot = c["sroot"]
+            args = {"missing": [], "str": ["a + b"], "notiter": [3], "items": [[_py_item(i) for i in c["xs"]]]}[sroot]
+            r = SimpleFormula(*args, **uo, **({"z": "a"} if c.get("has_structure") else {}))
+        if c.get("post") == "pickle":
+            import pickle
+
+            r = pickle.loads(pickle.dumps(r))
+        elif c.get("post") == "deepcopy":
+            import copy
+
+            r = copy.deepcopy(r)
+        return {"formula": canon_ordered(r)}, orders
+    except Exception as e:
+        return {"error": pc.exc_class(e)}, orders
+
+
+def impl_spec(c):
+    out, orders = _call_spec(c)
+    # iteration order of the sets in the specification (CPython hashing: enters the model as data)
+    so = {}
+    for n, x in enumerate(x for x in _walk_specs(c) if x["k"] == "items"):
+        if x["c"] != "list" and id(x) in orders:
+            so[str(n)] = orders[id(x)]
+    out["set_orders"] = so
+    alt = {}
+    if c.get("post", "none") != "none":
+        alt["nopost"] = _call_spec(dict(c, post="none"))[0]
+    if c["ord"] in ("degree", "sort"):
+        alt["none"] = _call_spec(c, ord_override="none")[0]
+    # (not for sets: replacing elements changes CPython's iteration order of the set)
+    if (any(x["k"] == "items" and any("s" in i for i in x["xs"]) for x in _walk_specs(c)) and not c.get("nested") and not c.get("parser")
+            and not any(x["k"] == "items" and x["c"] != "list" for x in _walk_specs(c))):
+        alt["terms"] = _call_spec(c, as_terms=True)[0]
+    if c["entry"] == "from_spec" and c["root"]["k"] == "dict" and any(k != "root" for k, _ in c["root"]["fs"]):
+        c2 = dict(c, entry="formula", root=next((v for k, v in c["root"]["fs"] if k == "root"), None),
+                  kw=[[k, v] for k, v in c["root"]["fs"] if k != "root"])
+        if all(k.isidentifier() and not k.startswith("_") for k, _ in c2["kw"]):
+            alt["kw"] = _call_spec(c2)[0]
+    # a tuple of one-part strings is the multi-part formula `s1 | s2 | ...` (nested structure vs `|`)
+    r = c.get("root")
+    if (c["entry"] in ("from_spec", "formula") and not c.get("kw") and r and r["k"] == "tuple" and len(r["xs"]) >= 2
+            and all(x["k"] == "str" and x["s"].strip() and "~" not in x["s"] and "|" not in x["s"] for x in r["xs"])
+            and not c.get("parser") and not c.get("nested")):
+        from formulaic import Formula
+
+        try:
+            singles = [Formula(x["s"]) for x in r["xs"]]
+            if all(type(f).__name__ == "SimpleFormula" for f in singles):
+                alt["bar"] = _call_spec(dict(c, root={"k": "str", "s": " | ".join(x["s"] for x in r["xs"])}))[0]
+        except Exception:
+            pass
+    out["alt"] = alt
+    return out
+
+
+def request_spec(c, o):
+    strs = _spec_strings(c)
+    idx = {s: i for i, s in enumerate(strs)}
+    so = (o or {}).get("set_orders", {}) if isinstance(o, dict) else {}
+    counter = [0]
+
+    def items_json(xs, order=None):
+        js = [{"s": idx[i["s"]]} if "s" in i else ({"t": i["t"]} if "t" in i else {"bad": 1}) for i in xs]
+        return [js[j] for j in order] if order is not None else js
+
+    # sets are numbered in the traversal order of _walk_specs
+    numbering = {id(x): n for n, x in enumerate(x for x in _walk_specs(c) if x["k"] == "items")}
+
+    def conv(x):
+        k = x["k"]
+        if k == "str":
+            return {"k": "str", "i": idx[x["s"]]}
+        if k == "items":
+            order = so.get(str(numbering[id(x)])) if x["c"] != "list" else None
+            return {"k": "items", "xs": items_json(x["xs"], order)}
+        if k == "dict":
+            return {"k": k, "fs": [[kk, conv(v)] for kk, v in x["fs"]]}
+        if k == "structured":  # `Structured(**fs)` stores the root last: the model takes the keys in `_structure` order
+            fs = [p for p in x["fs"] if p[0] != "root"] + [p for p in x["fs"] if p[0] == "root"]
+            return {"k": k, "fs": [[kk, conv(v)] for kk, v in fs]}
+        if k == "tuple":
+            return {"k": "tuple", "xs": [conv(v) for v in x["xs"]]}
+        if k == "built":
+            return {"k": "built", "root": conv(x["root"]), "ord": x["ord"]}
+        return {"k": "other"}
+
+    table = []
+    for s in strs:
+        w, sp_ = pc.char_flags(s)
+        norm, pyvars = pc.py_env(s)
+        table.append(dict(s=s, w=w, sp=sp_, norm=norm, pyvars=pyvars))
+    req = dict(op="spec", entry=c["entry"], ord=c["ord"], strs=table, avail=c.get("avail"),
+               kw=[[k, conv(v)] for k, v in c.get("kw", [])])
+    if c.get("root") is not None:
+        req["root"] = conv(c["root"])
+    if c.get("parser"):
+        req["parser"] = c["parser"]
+    if c.get("nested"):
+        req["nested"] = c["nested"]
+    if c["entry"] == "simple":
+        req.update(sroot={"notiter": "notiter"}.get(c["sroot"], c["sroot"]), xs=items_json(c["xs"]), has_structure=c["has_structure"])
+    return req
+
+
+def _leaves(v):
+    if isinstance(v, list):
+        yield v
+    elif isinstance(v, dict) and "s" in v:
+        for _, x in v["s"]:
+            yield from _leaves(x)
+    elif isinstance(v, dict) and "t" in v:
+        for x in v["t"]:
+            yield from _leaves(x)
+
+
+def _shape(v):
+    if isinstance(v, list):
+        return "L"
+    if isinstance(v, dict) and "s" in v:
+        return {"s": [[k, _shape(x)] for k, x in v["s"]]}
+    if isinstance(v, dict) and "t" in v:
+        return {"t": [_shape(x) for x in v["t"]]}
+    return v
+
+
+def _deg(t):
+    return sum(1 for f in t if f[1] != "literal")
+
+
+def oracle_spec(c, o):
+    if "error" in o:
+        return None
+    got, alt = o["formula"], o.get("alt", {})
+    # `_ordering`: the same specification under "none" gives the same structure with the same terms per leaf;
+    # "degree" is the stable sort of it by degree, "sort" orders factors within a term and terms by (degree, factors)
+    base = alt.get("none")
+    if base is not None and "formula" in base and not any(x["k"] == "built" for x in _walk_specs(c)):
+        b = base["formula"]
+        if _shape(b) != _shape(got):
+            return f"ordering changes the structure: {_shape(b)} vs {_shape(got)}"
+        for lb, lg in zip(_leaves(b), _leaves(got)):
+            if c["ord"] == "degree":
+                want = sorted(lb, key=_deg)
+            else:
+                want = sorted([sorted(t, key=lambda f: f[0]) for t in lb], key=lambda t: (_deg(t), [f[0] for f in t]))
+                lg2 = [t for t in lg]
+                if [(_deg(t), [f[0] for f in t]) for t in lg2] != [(_deg(t), [f[0] for f in t]) for t in want]:
+                    return f"ordering=sort: got {lg}, expected {want}"
+                continue
+            if lg != want:
+                return f"ordering=degree: got {lg}, expected the stable degree sort {want} of {lb}"
+    if base is not None and "error" in base and c["ord"] in ORDERINGS:
+        return f"the specification is accepted with ordering={c['ord']} but rejected ({base['error']}) with ordering=none"
+    # a pickled / deep-copied formula is the same formula
+    npst = alt.get("nopost")
+    if npst is not None and npst != {"formula": got}:
+        return f"formula changed by {c['post']}: {npst} -> {got}"
+    # list elements given as strings or as the Terms they denote: the same formula
+    t = alt.get("terms")
+    if t is not None and t != {k: v for k, v in o.items() if k in ("formula", "error")}:
+        return f"strings in a list vs the Terms they denote: {o.get('formula')} vs {t}"
+    # tuple of one-part strings vs the multi-part string
+    bar = alt.get("bar")
+    if bar is not None and bar != {"formula": got}:
+        return f"tuple of parts vs the `|` formula: {got} vs {bar}"
+    # dict vs keywords
+    kwv = alt.get("kw")
+    if kwv is not None and kwv != {"formula": got}:
+        return f"from_spec(dict) vs Formula(**dict): {got} vs {kwv}"
+    return None
+
 
 def describe(c):
+    if c["kind"] == "spec":
+        return "spec/" + c["entry"] + ("/" + (c["root"] or {}).get("k", "-") if c["entry"] != "simple" else "")
     return (c["kind"] + ("/default" if c["cfg"] == pc.CFG_DEFAULT else "/flags") + ("/dot" if c.get("avail") is not None else "")
             + ("/hist:" + c["hist"]["via"] if c.get("hist") else ""))
 
@@ -116,6 +714,14 @@ def nontrivial(c):
 
 
 def impl(c):
+    if c["kind"] == "spec":
+        return impl_spec(c)
+    if c["kind"] == "base":
+        return impl_base(c)
+    if c["kind"] in ("grammar", "mutated", "edge"):
+        st = impl_stages(c)
+        wrap = lambda k: st[k] if isinstance(st[k], dict) and "error" in st[k] else {k: st[k]}
+        return dict(terms=wrap("terms"), formula=wrap("formula"), tokens=st["tokens"], ast=st["ast"])
     t = pc.impl_terms(c["s"], c["cfg"], c.get("avail"), c.get("hist"))
     f = pc.impl_formula(c["s"], c["cfg"], c.get("avail"), c.get("hist"))
     out = dict(terms=t, formula=f)
@@ -170,13 +776,38 @@ def _forms(c):
 
 
 def request(c, o):
+    if c["kind"] == "spec":
+        return request_spec(c, o)
+    if c["kind"] in ("grammar", "mutated", "edge"):
+        return pc.request_for(c["s"], "all", c["cfg"], c.get("avail"))
+    if c["kind"] == "base":
+        return pc.request_for(c["s"], "base", c["cfg"], None)
     return pc.request_for(c["s"], "both", c["cfg"], c.get("avail"))
 
 
 def agree(c, o, m):
     if "driver_error" in m:
         return "driver: " + m["driver_error"][:300]
+    if c["kind"] == "base":
+        return None if o == m else f"base-class FormulaParser: implementation {o} vs model {m}"
+    if c["kind"] == "spec":
+        oo = {k: v for k, v in o.items() if k in ("formula", "error")}
+        return None if oo == m else f"specification form: implementation {oo} vs model {m}"
     it, if_ = o["terms"], o["formula"]
+    if c["kind"] in ("grammar", "mutated", "edge"):
+        # every stage separately: token list, tree, terms, Formula
+        if o["tokens"] != m.get("tokens"):
+            return f"get_tokens differs from the model: {o['tokens']} vs {m.get('tokens')}"
+        if o["ast"] != m.get("ast"):
+            return f"get_ast differs from the model: {o['ast']} vs {m.get('ast')}"
+        for key, got in (("terms", it), ("formula", if_)):
+            want = m.get(key)
+            if isinstance(want, dict) and "error" in want:
+                if got.get("error") != want["error"]:
+                    return f"{key}: model error {want['error']} vs impl {got.get('error', 'ok')}"
+            elif got.get(key) != want:
+                return f"{key} differs from the model"
+        return None
     if "error" in m:
         if it.get("error") == m["error"] and if_.get("error") == m["error"]:
             return None
@@ -195,6 +826,10 @@ def _internal(x):
 def oracle(c, o):
     if "harness_exception" in o:
         return "harness could not run the implementation: " + o["harness_exception"]
+    if c["kind"] == "spec":
+        return oracle_spec(c, o)
+    if c["kind"] == "base":
+        return None
     if c["kind"] == "grammar":
         for ordered, got, key in ((False, o["terms"], "terms"), (True, o["formula"], "formula")):
             try:
@@ -209,6 +844,10 @@ def oracle(c, o):
                 return f"formula of the documented grammar rejected with {got['error']} (expected {want})"
             if got[key] != want:
                 return f"{key}: got {got[key]}, documented algebra gives {want}"
+    if c["kind"] == "edge" and c.get("expect") == "reject":
+        for key in ("terms", "formula"):
+            if o[key].get("error") != "FormulaParsingError":
+                return f"{c['s']!r} is outside the documented grammar (template {c['tpl']}) but {key} gave {o[key]}"
     if c["kind"] == "identity":
         for name, (l, r) in o["ident"].items():
             if name == "(a+b+c)**2" and isinstance(l, list) and isinstance(r, list):
@@ -240,8 +879,13 @@ def classify(c, o, why):
 
 
 LEVEL_TEXT = (
-    "Proof (partial): Lean theorems about the executable model of the whole parser (tokenizer, token rewriting, sign-run collapsing, index-based shunting-yard, term algebra, _simplify, degree ordering) show for ALL inputs that the live operator table equals the documented one for all 8 flag subsets (re-decided against the regenerated table on every run), that the shunting-yard returns the documented tree for EVERY expression of the documented arithmetic grammar defined by precedence levels (Sum/Prod/Inter/Pow/Atom; unbounded nesting and chain lengths, leading unary sign, right-associative **), that conversely an ACCEPTED token list is never re-ordered, dropped from or duplicated (shunt_preserves_tokens: the in-order reading of the returned tree is the input token list without its brackets, for every operator table without a nullary infix operator, in particular the 8 live tables and the constraint table; shunt_preserves_leaves), that the token-level intercept insertion puts '1 +' in front of every right-hand part and of no left-hand part for formulas with ~ and | separators (and nothing with include_intercept off; a literal 0 becomes the two tokens - 1), that sign-run collapsing keeps all other operator characters and reduces runs by parity, the documented identities (a*b, %in%, ^, a/b, **2) and the stable degree ordering. The top level is proved too: for arbitrary Sums l.., p.. the tokens of 'l | .. ~ p | ..' parse to the documented tree ~(parts(l..), parts(p..)) under the flags that enable it (| chains nest to the right; the flat tuple is the same), are REJECTED with the syntax error when TWOSIDED or MULTIPART is off or a second ~ follows, and the tree evaluates to {lhs: parts, rhs: parts} with each part the term set of its Sum (toplevel_parses, toplevel_rejects, eval_toplevel, eval_toplevel_total). What is NOT proved is the composition into one statement from the STRING (tokenisation of an arbitrary rendered formula) and the '.' wildcard: it is kept as FULL (unproved) in Props/C01.lean and covered by the differential correspondence of the model against the real parser plus an independent reference evaluator of the documented semantics on generated ASTs."
+    "Proof (partial): Lean theorems about the executable model of the whole parser (tokenizer, token rewriting, sign-run collapsing, index-based shunting-yard, term algebra, _simplify, degree ordering) and of every specification form (Formula.from_spec, Formula(...), StructuredFormula, SimpleFormula, _ordering). "
+    "MAIN THEOREM (parse_eq_denote_partial / parse_eq_denote_tokens_partial / formula_eq_denote_partial): for EVERY formula of the documented grammar — Side, ~ Side or Side ~ Side, a Side being Sum | ... | Sum, the Sums arbitrary expressions over + - * / %in% : ** ^, parentheses and a leading sign, unbounded nesting and lengths — that the feature flags allow and that has no literal 0, and for EVERY parser configuration, get_terms IS the documented denotation (Spec/WilkinsonDenote.lean: + union, - difference, : pairwise products, a*b = a+b+a:b, a/b, %in%, **n; every right-hand part read from {1} with include_intercept, from nothing on the left-hand side and without it; {lhs, rhs} / {root}; tuples for | parts; check_terms), rejections included, and Formula(<str>) is that denotation simplified and stably ordered by degree. Proved from the token sequence; from the STRING, with no hypothesis about the tokenizer, for every such formula written with one space after each token whose atoms are plain names or numbers (tokenize_rendered: the tokenizer returns exactly the tokens written; parse_eq_denote_rendered_partial); for any other spelling given that the string tokenises to that sequence (source spans are proved irrelevant). "
+    "Its ingredients are theorems of their own: the live operator table equals the documented one for all 8 flag subsets (re-decided against the regenerated table on every run); the shunting-yard returns the documented tree for every expression of the arithmetic grammar and of the top level (toplevel_parses, ...), rejects what the flags disable, and never re-orders, drops or duplicates a token of an accepted list (shunt_preserves_tokens); the token-level intercept insertion (every right-hand part, no left-hand part, 0 -> - 1, and intercept_is_fold: '1 +' in front of a part IS reading the part from {1}); sign-run collapsing; evaluation = denotation on the arithmetic levels (eval_eq_denote). "
+    "TERM ALGEBRA, for all operands and with order: + idempotent and associative, - is set difference on term identities, : distributes over + from the left, S**(n+1) = (S**n):S for every n, products respect term identity, a*b, %in%, ^, a/b, **2 identities, stable degree order. "
+    "SPECIFICATION FORMS (forms_onesided, forms_twosided, string_eq_keywords_partial, ordering_methods): for every string parser, a string, the list of its Terms and a list of strings denoting them piecewise give the same SimpleFormula; 'lhs ~ rhs' as one string, as a dict, as lhs=/rhs= keywords and as a Structured (sides as strings or Term lists) give the same StructuredFormula; and for the documented grammar Formula('l ~ p') = Formula(lhs='l', rhs='1 + p') with no hypothesis left; none / degree / sort orderings characterised. "
+    "What is NOT proved: tokenisation of an ARBITRARILY spaced / quoted rendering (a hypothesis of the general string-level theorem), the '.' wildcard, the literal 0 and sign runs INSIDE the grammar of the main theorem, multistage formulas, and the general from_spec recursion beyond the stated forms; these are covered by the differential correspondence of the model against the real code at every stage (tokens, tree, terms, formula, every specification form) plus the independent reference evaluator of the documented semantics on generated ASTs."
 )
 LEVEL_NOTE = (
-    'Trusted: Lean kernel + propext/Classical.choice/Quot.sound; the hand model of the parser validated on every run by correspondence (get_terms and Formula()) on grammar-directed and mutated strings; CPython ast.unparse normal forms and re character classes enter as data; the operator table is regenerated from the live resolver.'
+    'Trusted: Lean kernel + propext/Classical.choice/Quot.sound; the hand models (parser stack, Model/FromSpec.lean, Model/BaseParser.lean) validated on every run by correspondence at every stage (get_tokens, get_ast, get_terms, Formula(), every specification form) on grammar-directed, mutated, template and specification-tree inputs; CPython ast.unparse normal forms, re character classes and set iteration order enter as data; the operator table and the default parser configurations / orderings are regenerated from the live package.'
 )
